@@ -153,6 +153,131 @@ CHECKS["C04"] = {
     "explanation": "per-instruction stack high-water counter (verif hook) compared across n for generated tail-recursive loops",
 }
 
+MODEL_TRUST = TRUSTED_COMMON + [
+    "RefScheme (harness/src/refscheme.rs, ~1.1 kLoC CEK machine) is the reference for R7RS on the generator grammar; it shares no code with "
+    "marwood's compiler/VM and uses marwood's Cell only as the S-expression type programs are handed over in",
+    "failures are compared by class {unbound-variable, not-a-procedure, wrong-arity, user-error(payload), other}, never by message; the "
+    "unspecified value is a wildcard; procedures compare as 'a procedure'",
+    "operands are evaluated left to right and the operator after them (R7RS leaves the operator's position open; generated programs never "
+    "make it observable); programs whose meaning R7RS leaves open (set! of an undefined global, reads of uninitialised letrec/internal "
+    "bindings, keywords rebound as variables, continuations applied to other than one value, integer overflow in the model) are "
+    "'model-undecided' and never compared",
+]
+
+CHECKS["C01"] = {
+    "engine": "c01",
+    "level": "exploration",
+    "lanes_quick": [("release", None)],
+    "lanes_thorough": [("release", None), ("chk", None)],
+    "floors": {"forms_compared": 50000, "failing_forms_compared": 500, "fresh_vm_pairs_compared": 5000, "unrelated_definition_runs_compared": 1000},
+    "rule": "typed-hole generation of sessions of 4-14 top-level forms (definitions of data and of fixed/variadic procedures, redefinitions with "
+            "the same signature, set!, expression forms) over lambda/define/set!/if/quote/quasiquote(nested, vectors)/let/let*/letrec/named "
+            "let/begin/cond(=>)/case/and/or/when/unless/delay/force/apply/eval/call-cc/map/for-each/closures/higher-order use, nesting <= 5; one "
+            "session in seven carries one injected failure (unbound variable, wrong type, wrong arity, user error, non-procedure call, index out of "
+            "range) and keeps evaluating afterwards; one in four is re-run with unrelated definitions interleaved. Each session runs in the model "
+            "and in three fresh VMs. A session is non-trivial when it combines >= 2 features beyond if/let/begin/output; distinct = distinct "
+            "(tag set, program text).",
+    "assumptions": MODEL_TRUST,
+    "explanation": "online differential monitor form by form (value / failure class / display-write event order) plus VM-vs-VM and metamorphic twins; "
+                   "mismatches are delta-debugged before they are signed",
+}
+
+CHECKS["C02"] = {
+    "engine": "c02",
+    "level": "exploration",
+    "lanes_quick": [("release", None)],
+    "lanes_thorough": [("release", None)],
+    "exhaustive_claim": True,
+    "floors": {"enumerated_depth_le_2": 10000, "forms_compared": 100000},
+    "rule": "scope skeletons over names a, b, c: at each of up to 4 nested procedures each name is a parameter, the rest parameter, an internal "
+            "definition or free (54 valid combinations per level). Enumerated completely: depth 1 x 4 invocation patterns x 4 assignment menus; "
+            "depth 2 all 54^2 kind pairs x 4 invocation patterns (assignment menu hashed in quick, all 4 in thorough); thorough also all 54^3 kind "
+            "triples at depth 3 (pattern/menu hashed); depth 3-4 sampled. The probe body logs every read of every name before and after creating the "
+            "inner closure and after assignments; closures are invoked inside the creator, after it returned, twice, and created in a loop and "
+            "invoked out of order. exhaustive refers to the enumerated part. Every program is non-trivial; distinct = distinct skeletons.",
+    "assumptions": MODEL_TRUST,
+    "explanation": "read log (every read consed onto a global) and results compared with RefScheme, which keeps explicit locations per activation",
+}
+
+CHECKS["C03"] = {
+    "engine": "c03",
+    "level": "exploration",
+    "lanes_quick": [("release", None)],
+    "lanes_thorough": [("release", None), ("chk", None)],
+    "timeout_thorough": 3 * 3600,
+    "floors": {"collections_observed": 100000, "collections_that_freed_cells": 1000, "collections_with_live_continuation": 1000,
+               "collections_with_operands_pending": 1000, "scheduled_runs": 500},
+    "rule": "programs: C05 continuation sessions, C01 sessions, C02 scope skeletons and 14 allocation-heavy templates (list/vector/string builders, "
+            "quasiquote aggregates, closure factories, continuation stores, eval loops, string->symbol churn, defines of aggregates of every kind, "
+            "deep non-tail recursion, promises, generators, mixed churn). Each program runs once without forced collections and then in a fresh VM "
+            "per schedule: every k-th instruction for k in {1,2,3,5,8,13} (quick) / 1..16 (thorough) and 2 / 4 seeded Bernoulli schedules, with k "
+            "raised for long programs so that one run stays below 20000 collections; plus a collection between evaluations. One evaluation = one "
+            "program under all its schedules. distinct = distinct program texts.",
+    "assumptions": TRUSTED_COMMON + [
+        "forced collections run the production run_gc (root enumeration, mark, sweep) with only the utilisation test bypassed",
+        "the auditor's reachability rules (which VCell variants carry references) were written from the data-structure definitions, independently of Heap::mark",
+        "roots = global binding keys and slots, stack[0..=sp], acc, ip.0, ep (the set the VM documents)",
+    ],
+    "explanation": "per collection: pre-snapshot, independent reachability, post-assertions (no reachable cell freed or changed; free list <=> Free "
+                   "state; no surviving marks; symbol table bijection); per run: outcomes identical to the collection-free baseline",
+}
+
+CHECKS["C05"] = {
+    "engine": "c05",
+    "level": "exploration",
+    "lanes_quick": [("release", None)],
+    "lanes_thorough": [("release", None), ("chk", None)],
+    "floors": {"forms_compared": 50000, "fresh_vm_pairs_compared": 5000},
+    "rule": "sessions composed of 1-4 parametrised continuation idioms with unique names: call/cc at every operand index of 1-4-ary calls with "
+            "traced sibling operands, k stored in a variable / vector / pair / closure and re-entered 0-3 times from later top-level forms; escape "
+            "from depth d of non-tail recursion; two-continuation generators pulled across forms and inside one form; escape from map / for-each "
+            "callbacks; re-entry into a map callback; invoking an earlier form's continuation inside another call/cc extent; receivers that return "
+            "normally, variadic receivers, (apply call/cc ...); mutation of variables and data between capture and re-entry; loop exits and a "
+            "capture per iteration; re-entry 0-3 times inside one form; tail/nested/cond=> positions; generated expressions with simple escapes. "
+            "Every session is non-trivial; distinct = distinct program texts.",
+    "assumptions": MODEL_TRUST,
+    "explanation": "differential against RefScheme whose continuations are immutable frame lists (re-entrant by construction), form by form, plus VM-vs-VM",
+}
+
+CHECKS["C13"] = {
+    "engine": "c13",
+    "level": "exploration",
+    "lanes_quick": [("release", None)],
+    "lanes_thorough": [("release", None), ("chk", None)],
+    "floors": {"forms_sliced": 50000, "resumes": 500000, "short_programs_all_constant_budgets": 100, "sessions_with_failing_forms": 20},
+    "rule": "sessions from the C05 and C01 generators (one third with an injected failure). Programs with <= 2000 instructions: constant budgets 1..64 "
+            "exhaustively (one third of them); otherwise one small constant budget and two seeded random budget sequences with budgets in 1..3, "
+            "1..17, 1..100, 1..10^3 or 1..10^4; every other run forces a collection at each slice boundary. One evaluation = one (session, budget "
+            "sequence). 'Eventually completes' is decided as a bound: resumes <= ceil(T / max(1, b-1)) + 2 for constant b, <= T + 2 otherwise, T "
+            "measured by the hook on the uninterrupted twin. distinct = distinct session texts.",
+    "assumptions": TRUSTED_COMMON + ["the uninterrupted twin in a second fresh VM is the reference; output is compared through a recording SystemInterface"],
+    "explanation": "twin VMs; progress monitor on the hook's instruction counter at every resume; outcome / failure class / output / later forms compared",
+}
+
+CHECKS["C07"] = {
+    "engine": "c07",
+    "level": "fault_enumeration",
+    "lanes_quick": [("release", None)],
+    "lanes_thorough": [("release", None), ("chk", None)],
+    "floors": {"failing_forms_executed": 10000, "later_forms_compared": 50000, "stack_traces_compared": 5000, "accumulation_runs": 10,
+               "evaluations_with_sp_checked": 50000},
+    "rule": "case index enumerates failure kind (index mod 6: unbound variable, wrong type, wrong arity, user error, non-procedure call, bad syntax) x "
+            "failure shape ((index/6) mod 6: injected at a seeded subexpression position of a generated expression; raised at call depth 0..6 of "
+            "a non-tail recursion; the same inside a call/cc extent; raised in the rest-of-computation of a stored continuation re-entered by the "
+            "failing form; raised while evaluating a procedure argument; a read error in source text) x consecutive failures ((index/36) mod 4: "
+            "1, 2, 10, 3), on top of a seeded session of generated definitions whose procedures have no global effects. Each failing form is "
+            "'explicit (set! g v) effects, then the failing context'; the twin VM gets the effects only (nothing at all for errors detected before "
+            "execution). Every 1000th case is an accumulation run comparing 10 with 1000 consecutive failures. distinct = distinct (main, twin) "
+            "session texts that were compared to the end.",
+    "assumptions": TRUSTED_COMMON + [
+        "generated procedure bodies never assign globals, so the completed effects of a failing form are exactly its explicit (set! g v) prefix",
+        "a syntax or read error is detected before any part of the form runs (whole top-level form compiled first), so its twin is empty",
+        "a case whose injected failure is not reached (it sat in a branch not taken) is discarded, not compared",
+    ],
+    "explanation": "twin VMs (failures vs completed effects only): later outcomes, later stack traces (frame count and descriptors), stack pointer "
+                   "before/after every evaluation (hook), stack capacity / live heap / sp / trace length after 10 vs 1000 failures",
+}
+
 # ---- texts for MANIFEST.json (tools/gen_manifest.py) ----
 MANIFEST_TEXT = {}
 NOT_APPLICABLE = {}
@@ -216,4 +341,50 @@ MANIFEST_TEXT["C04"] = {
     "level_text": "The context space of R7RS 3.5 up to the stated depth is enumerated completely and each program is actually executed for 10^5 iterations "
                   "under a counter that sees every instruction boundary; arities, recursion shapes and call forms are sampled per composition.",
     "level_note": "Trusts the max_sp hook (5 lines in the run loop) and that 32 slots of slack separate constant from linear growth.",
+}
+
+MANIFEST_TEXT["C01"] = {
+    "technique": "runtime monitoring: online differential monitor against an executable reference model (CEK machine) on generated sessions, plus fresh-VM and unrelated-definition twins",
+    "design_ref": "DESIGN.md 6 C01, 4.1, 4.2",
+    "level_text": "Tens of thousands (quick) to over a million (thorough) generated sessions that deliberately combine features are executed by the real VM "
+                  "and by an independent model, form by form. Exploration of the generator grammar, bounded in size and nesting.",
+    "level_note": "Trusts RefScheme for the grammar's R7RS meaning; anything the model cannot decide is counted as undecided, never as a verdict.",
+}
+MANIFEST_TEXT["C02"] = {
+    "technique": "runtime monitoring: differential read-log monitor against the reference model over exhaustively enumerated scope skeletons",
+    "design_ref": "DESIGN.md 6 C02",
+    "level_text": "The space of binding/shadowing/capture shapes up to depth 2 (3 in thorough) is enumerated completely and every read is logged and "
+                  "compared, so an error in the per-lambda binding map has to show in one of the enumerated shapes.",
+    "level_note": "Trusts RefScheme's explicit-location environments. Depth 4 is only sampled.",
+}
+MANIFEST_TEXT["C03"] = {
+    "technique": "runtime monitoring: forced-collection schedules (hook) with an independent heap auditor (own reachability traversal, pre/post snapshots) and baseline-vs-scheduled outcome comparison",
+    "design_ref": "DESIGN.md 6 C03, 4.3",
+    "level_text": "Every instruction boundary of thousands of programs is visited by a real collection (k=1 schedules) and each collection is audited "
+                  "against an independently computed reachable set; the evidence reports how many collections ran with continuations, closure "
+                  "environments and half-built argument lists live.",
+    "level_note": "Trusts the hook (production collector, threshold bypassed) and the auditor's reference-following rules.",
+}
+MANIFEST_TEXT["C05"] = {
+    "technique": "runtime monitoring: differential monitor against a reference model with re-entrant continuations over parametrised continuation idioms",
+    "design_ref": "DESIGN.md 6 C05",
+    "level_text": "Each idiom the property names is a template with seeded parameters; sessions mix them so that continuations are re-entered from "
+                  "later forms, from inside other extents and from library callbacks. Exploration.",
+    "level_note": "Trusts RefScheme's continuation semantics (frames are immutable, so re-entry cannot be wrong by aliasing).",
+}
+MANIFEST_TEXT["C13"] = {
+    "technique": "runtime monitoring: twin-VM equivalence (sliced vs uninterrupted) with a per-resume progress monitor on the hooked instruction counter and a bounded-resumes restatement of liveness",
+    "design_ref": "DESIGN.md 6 C13",
+    "level_text": "All constant budgets 1..64 for short programs and random budget sequences otherwise; each resume is checked for progress and the run for "
+                  "completion within a bound derived from the measured instruction count.",
+    "level_note": "Liveness is decided only as bounded progress. Trusts the instruction counter hook.",
+}
+
+MANIFEST_TEXT["C07"] = {
+    "technique": "runtime monitoring: fault enumeration with twin VMs (failure history vs completed-effects-only history), hooked stack-pointer invariant after every evaluation, resource accumulation monitor (k=10 vs k=1000)",
+    "design_ref": "DESIGN.md 6 C07",
+    "level_text": "Failures of every kind are injected at enumerated shapes and depths into generated sessions; the state after them is compared with "
+                  "a twin that only performed the completed effects, including the stack trace of a later failure, and the stack pointer is "
+                  "checked at every evaluation boundary.",
+    "level_note": "Trusts the construction 'explicit effects then failing context' for exactness of the twin, and the stats hook.",
 }
